@@ -162,6 +162,7 @@ PROPERTY_UNITS['C15'] = ['l2', 'l1int', 'l0bits']
 PROPERTY_UNITS['C14'] = ['msgl3', 'frame']
 PROPERTY_UNITS['C12'] = ['msgl3', 'l0bits']
 PROPERTY_UNITS['C09'] = ['msgl3', 'l2', 'l1int', 'l1enc', 'l0bits']
+PROPERTY_UNITS['C10'] = ['l2', 'sigtab', 'l0bits']
 PROPERTY_UNITS['C02'] = ['frame', 'msgl3', 'l2', 'l1int', 'l1enc', 'l0bits']
 
 PROPERTY_LEVEL = {'C07': 'other'}
